@@ -81,6 +81,31 @@ MUTANTS = [
      "old": "                    scenario[\"constants\"] = {}\n\n                for const, value in self.base_constants.items():\n                    if not const in scenario[\"constants\"].keys():\n                        scenario[\"constants\"][const] = value",
      "new": "                    scenario[\"constants\"] = self.base_constants\n\n                for const, value in self.base_constants.items():\n                    if not const in scenario[\"constants\"].keys():\n                        scenario[\"constants\"][const] = value",
      "note": "a scenario without own constants aliases the manager's base_constants dict: later settings for it change the defaults of scenarios added afterwards"},
+    # ---- C07
+    {"id": "c07-startime-typo", "property": "C07", "file": SDS,
+     "old": "        self.mod.starttime = starttime\n", "new": "        self.mod.startime = starttime\n"},
+    {"id": "c07-base-constants-override-scenario", "property": "C07", "file": SMSD,
+     "old": "                for const, value in self.base_constants.items():\n                    if not const in scenario[\"constants\"].keys():\n                        scenario[\"constants\"][const] = value",
+     "new": "                for const, value in self.base_constants.items():\n                    if True:\n                        scenario[\"constants\"][const] = value"},
+    {"id": "c07-file-base-constants-override-scenario", "property": "C07", "file": SMSD,
+     "old": "                for const, value in self.base_constants.items():\n                    if not const in scenario_dict[\"constants\"].keys():\n                        scenario_dict[\"constants\"][const] = value",
+     "new": "                for const, value in self.base_constants.items():\n                    if True:\n                        scenario_dict[\"constants\"][const] = value"},
+    {"id": "c07-string-points-not-evaluated", "property": "C07", "file": SDS,
+     "old": "            self.mod.points[name] = eval(str(value))", "new": "            self.mod.points[name] = value"},
+    {"id": "c07-rest-stoptime-to-starttime", "property": "C07", "file": S,
+     "old": "                            scenario.stoptime = runspecs[\"stoptime\"]", "new": "                            scenario.starttime = runspecs[\"stoptime\"]"},
+    {"id": "c07-file-runspecs-overwritten", "property": "C07", "file": SMSD,
+     "old": "                    scenario.dt = runspecs[\"dt\"] if \"dt\" in runspecs else scenario.model.dt", "new": "                    scenario.dt = scenario.model.dt"},
+    {"id": "c07-base-constants-only-from-last-file", "property": "C07", "file": "BPTK_Py/scenariomanager/scenario_manager_factory.py",
+     "old": "        base_constants = {}\n        for filename in filenames:\n            if not os.path.isdir(filename):\n                from ..modelparser import ParserFactory\n\n                parser_class = ParserFactory(filename)\n\n                if parser_class:\n                    meta_model",
+     "new": "        base_constants = {}\n        for filename in filenames[:1]:\n            if not os.path.isdir(filename):\n                from ..modelparser import ParserFactory\n\n                parser_class = ParserFactory(filename)\n\n                if parser_class:\n                    meta_model",
+     "note": "base constants are looked up in the first scenario file only"},
+    {"id": "c07-session-settings-points-ignored", "property": "C07", "file": SCN,
+     "old": "        if \"points\" in dictionary:\n            for key, value in dictionary[\"points\"].items():\n                self.points[key] = value",
+     "new": "        if \"points\" in dictionary and False:\n            for key, value in dictionary[\"points\"].items():\n                self.points[key] = value"},
+    {"id": "c07-scenario-points-rebind-model-points", "property": "C07", "file": SCN,
+     "old": "                for points_name, points_value in self.points.items():\n                    self.model.points[points_name] = points_value if type(points_value) is list else eval(str(points_value))",
+     "new": "                self.model.points = self.points"},
     # ---- C08
     {"id": "c08-memoize-plain-store", "property": "C08", "file": M,
      "old": "            result = mymemo.setdefault(normalized_arg, result)", "new": "            mymemo[normalized_arg] = result"},
